@@ -89,8 +89,31 @@ fn edit_json(e: &Edit) -> Value {
 
 pub const CONTENT_TYPE: &str = "Content-Type: application/vscode-jsonrpc; charset=utf-8\r\n";
 
-pub fn frame_of(st: &Step) -> Vec<u8> {
-    let body = serde_json::to_string(&body_of(&st.op)).expect("json");
+/// The frames of a whole script. Document versions increase per document the way a real client
+/// numbers them (didOpen and every didChange get the next number, also across close/reopen).
+pub fn frames_of(script: &[Step]) -> Vec<Vec<u8>> {
+    let mut versions: BTreeMap<&str, i64> = BTreeMap::new();
+    script
+        .iter()
+        .map(|st| match &st.op {
+            ClientOp::Open { uri, .. } | ClientOp::Change { uri, .. } => {
+                let v = versions.entry(uri.as_str()).or_insert(0);
+                *v += 1;
+                frame_with_version(st, Some(*v))
+            }
+            _ => frame_with_version(st, None),
+        })
+        .collect()
+}
+
+fn frame_with_version(st: &Step, version: Option<i64>) -> Vec<u8> {
+    let mut body = body_of(&st.op);
+    if let Some(v) = version {
+        if let Some(td) = body.get_mut("params").and_then(|p| p.get_mut("textDocument")) {
+            td["version"] = json!(v);
+        }
+    }
+    let body = serde_json::to_string(&body).expect("json");
     let mut out = match st.hdr {
         1 => format!("Content-Length: {}\r\n{CONTENT_TYPE}\r\n", body.len()),
         2 => format!("{CONTENT_TYPE}Content-Length: {}\r\n\r\n", body.len()),
